@@ -126,6 +126,7 @@ func (s *sim) check(a Action) {
 	s.checkInput()
 	s.checkOutput(false)
 	s.checkDo()
+	s.checkEndCause()
 	s.checkMustEnd()
 	s.checkLeak()
 }
@@ -476,6 +477,28 @@ func (s *sim) checkNoticesLive() {
 				return
 			}
 			s.goneOpen++
+		}
+	}
+}
+
+// checkEndCause: the program does not end a stream by itself.  A stream's
+// proxy ends because its transport ended or failed, its caller went away, its
+// peer was released, the operator's input closed or the program shuts down;
+// one that ends for no such reason cuts a live shell off.
+func (s *sim) checkEndCause() {
+	for _, at := range s.atts {
+		for _, h := range at.halves() {
+			if !h.endedNoCause {
+				continue
+			}
+			if h.dir == dirOut {
+				s.violate("C03", "ended-without-cause", "output stream ended by the program although its transport had not ended",
+					"output stream %s was ended although its reader had returned no error or end-of-stream, its caller's context is live and nothing else had happened that ends it: whatever the attached shell sends from now on is never shown", h.name())
+			} else {
+				s.violate("C02", "ended-without-cause", "input stream ended by the program although its transport had not failed",
+					"input stream %s was ended although no write or flush had failed, its caller's context is live and nothing else had happened that ends it", h.name())
+			}
+			return
 		}
 	}
 }
